@@ -28,7 +28,33 @@ fn canonical(name: &str) -> bool {
 }
 
 /// All checks for one name.  `compare` = demand equality with the reference matcher.
+thread_local! {
+    /// the names this worker thread looked up before the current one (most recent last): a lookup
+    /// must be a pure function of its argument, so a discrepancy that only shows after certain
+    /// earlier lookups is replayed with them
+    static RECENT: std::cell::RefCell<std::collections::VecDeque<String>> = const { std::cell::RefCell::new(std::collections::VecDeque::new()) };
+}
+const HISTORY: usize = 3;
+
 pub fn eval_name(psl: &Psl, name: &str, compare: bool) -> (Vec<Finding>, &'static str, bool) {
+    let (mut fs, class, nt) = eval_name_inner(psl, name, compare);
+    RECENT.with(|r| {
+        let mut r = r.borrow_mut();
+        if !fs.is_empty() {
+            let hist: Vec<String> = r.iter().cloned().collect();
+            for f in fs.iter_mut() {
+                f.case["history"] = json!(hist);
+            }
+        }
+        r.push_back(name.to_string());
+        while r.len() > HISTORY {
+            r.pop_front();
+        }
+    });
+    (fs, class, nt)
+}
+
+fn eval_name_inner(psl: &Psl, name: &str, compare: bool) -> (Vec<Finding>, &'static str, bool) {
     let mut fs = vec![];
     let case = json!({ "name": name });
     let r = par::catch(|| {
@@ -240,6 +266,22 @@ pub fn run(ctx: &Ctx) -> Result<Run, String> {
     let cp = cross_product(&psl, &bodies, &vocab[..nvocab.min(vocab.len())], ctx.tier.pick(4, 8), ctx.threads);
     stats.count("label_x_rule_names", cp.evaluations);
     stats.merge(cp);
+    // part 1c: ordered sequences on one thread – names that share labels at different levels
+    // (rule l1.l2: x.l2.l1 then w.x.l1.l2; a name repeating its top label), so that state carried
+    // from one lookup to the next would show; every lookup is compared with the reference
+    let seq = par::sweep(bodies.len(), ctx.threads, 64, |i, st| {
+        let labels: Vec<&str> = bodies[i].split('.').collect();
+        let rev: Vec<&str> = labels.iter().rev().copied().collect();
+        let top = labels.last().copied().unwrap_or("");
+        for name in [format!("x.{}", rev.join(".")), format!("w.x.{}", bodies[i]), format!("w.{top}.{top}"), format!("w.x.{}", bodies[i]), format!("{top}.{}", bodies[i])] {
+            let (fs, _class, _nt) = eval_name(&psl, &name, true);
+            st.evaluations += 1;
+            st.findings_from(fs);
+        }
+        st.outcome("ordered-sequence");
+    });
+    stats.count("ordered_sequence_lookups", seq.evaluations);
+    stats.merge(seq);
     // part 2: all strings over the alphabet up to length L
     let maxlen = ctx.tier.pick(6, 9);
     for len in 0..=maxlen {
@@ -278,7 +320,7 @@ pub fn run(ctx: &Ctx) -> Result<Run, String> {
     let rules = psl.rules.len();
     let mut run = Run::from_stats(
         "exploration",
-        "every rule of public_suffix_list.dat (A-label form; wildcards instantiated with two labels and their base, exceptions without '!') as-is, with its leading label removed/replaced and with 1..3 labels prepended, compared on public_suffix / effective_tld_plus_one / is_effective_tld with a textbook PSL matcher over the .dat file; half of those names again with Unicode labels prepended (label counts must agree); every rule with each of the 64 most frequent labels of the list (thorough: every distinct label of the list) and the labels of its 4 (8) neighbours in table order in front of it; plus all strings over {c,k,o,m,u,w,.,A,é} up to the stated length and long/odd names (structural checks always, equality for canonical lower-case ASCII names). Non-trivial = a canonical name whose prevailing rule is an explicit rule of the list",
+        "every rule of public_suffix_list.dat (A-label form; wildcards instantiated with two labels and their base, exceptions without '!') as-is, with its leading label removed/replaced and with 1..3 labels prepended, compared on public_suffix / effective_tld_plus_one / is_effective_tld with a textbook PSL matcher over the .dat file; half of those names again with Unicode labels prepended (label counts must agree); every rule with each of the 64 most frequent labels of the list (thorough: every distinct label of the list) and the labels of its 4 (8) neighbours in table order in front of it; for every rule an ordered sequence of five lookups on one thread whose names share labels at different levels (reversed rule, rule, repeated top label); plus all strings over {c,k,o,m,u,w,.,A,é} up to the stated length and long/odd names (structural checks always, equality for canonical lower-case ASCII names). Non-trivial = a canonical name whose prevailing rule is an explicit rule of the list",
         true,
         stats,
     );
@@ -292,6 +334,37 @@ pub fn run(ctx: &Ctx) -> Result<Run, String> {
 
 pub fn replay(_ctx: &Ctx, case: &Value) -> Result<Vec<Finding>, String> {
     let psl = Psl::load(DAT)?;
-    let name = case["name"].as_str().ok_or("bad C10 case")?;
-    Ok(eval_name(&psl, name, canonical(name)).0)
+    let name = case["name"].as_str().ok_or("bad C10 case")?.to_string();
+    let history: Vec<String> = case.get("history").and_then(|h| serde_json::from_value(h.clone()).ok()).unwrap_or_default();
+    // on a fresh thread: first alone, then after the recorded earlier lookups
+    std::thread::scope(|s| {
+        s.spawn(|| {
+            let alone = eval_name(&psl, &name, canonical(&name)).0;
+            if !alone.is_empty() || history.is_empty() {
+                return alone;
+            }
+            vec![]
+        })
+        .join()
+    })
+    .map_err(|_| "replay thread panicked".to_string())
+    .and_then(|alone| {
+        if !alone.is_empty() || history.is_empty() {
+            return Ok(alone);
+        }
+        std::thread::scope(|s| {
+            s.spawn(|| {
+                for h in &history {
+                    let _ = eval_name(&psl, h, canonical(h));
+                }
+                let mut fs = eval_name(&psl, &name, canonical(&name)).0;
+                for f in fs.iter_mut() {
+                    f.detail = format!("{} - only after the earlier lookups {history:?} on the same thread (alone the answer is right: the lookup is not a pure function of its argument)", f.detail);
+                }
+                fs
+            })
+            .join()
+        })
+        .map_err(|_| "replay thread panicked".to_string())
+    })
 }
